@@ -79,7 +79,11 @@ class Check(object):
                          if k.get('property') == self.pid)
         new = []
         seen_known = []
+        seen_ids = set()
         for f in self.findings:
+            if f['id'] in seen_ids:
+                continue
+            seen_ids.add(f['id'])
             if f['id'] in known_ids:
                 seen_known.append(f)
             else:
